@@ -55,6 +55,15 @@ def suiteMerge (kvs : List (String × String)) (lines : List (String × String))
   | some td =>
     lines.map fun (line, _) =>
       let toKVs (s : String) := (s.splitOn ";").filterMap fun kv => match kv.splitOn "=" with | [k, v] => some (k, v) | _ => none
+      if line.startsWith "a " then
+        -- aliasing check: after recv.Merge(o1); recv.Merge(o2) the value o1 must read exactly as it was given
+        match ((line.drop 2).toString).splitOn " | " with
+        | [_, o1, _] =>
+          let v := buildVal types 8 td.fields "" (toKVs o1)
+          let e := ";".intercalate (encodeVal "" v)
+          e ++ "\t" ++ e
+        | _ => "bad-op\t-"
+      else
       if line.startsWith "f " then
         -- factory layering: constructors c0 … c(k-1), the factory's own config, the library defaults; the LAST
         -- constructor has the highest precedence: fold Merge over [c(k-1), …, c0, base, defaults]
